@@ -42,8 +42,11 @@ def main():
             if a[0] == 'P':
                 obs[int(a[1])].append(dict(level=int(a[2]), variant=int(a[3]), status=a[4], got=a[5], mallocs=int(a[6]), delta=int(a[7]), snap=int(a[8]), a=int(a[9]), r=int(a[10])))
     kept, why = [], collections.Counter()
+    legal = []          # positions where NULL is silently accepted (normal return at both levels, no guard diagnostic): NULL is a legal value there
     for i, r in enumerate(rows):
         o = obs.get(i, [])
+        if len(o) == 8 and all(x['status'] == 'normal' and not x['a'] and not x['r'] for x in o):
+            legal.append(r[:9])
         l0 = [x for x in o if x['level'] == 0]
         l1 = [x for x in o if x['level'] == 1]
         if len(l0) != 4 or len(l1) != 4:
@@ -86,7 +89,12 @@ def main():
         f.write('# same columns as c16_guards.tsv\n')
         for r in kept:
             f.write('\t'.join(r) + '\n')
-    print('candidates', len(rows), 'kept', len(kept))
+    with open(os.path.join(vf.ROOT, 'gen', 'c16_legalnull.tsv'), 'w') as f:
+        f.write('# pointer positions where NULL was observed to be a legal value on the repaired tree (normal return at levels 0 and 1, no guard diagnostic):\n')
+        f.write('# tools/gen_c16.py --emit gives every guarded row of the same entry point a companion in which these are NULL as well\n')
+        for r in legal:
+            f.write('\t'.join(r) + '\n')
+    print('candidates', len(rows), 'kept', len(kept), 'legal-NULL positions', len(legal))
     for k, v in why.most_common():
         print('  left out: %-60s %d' % (k, v))
     for r in kept:
